@@ -1597,8 +1597,8 @@ def run(pid, suites, tier, seed, n=None, hostile=False, only_ops=None, also=None
         for tid, (t, src, meta) in info.items():
             if t is None or not meta.get('xops') or getattr(t, 'xvalues', None) is None or t.kind == 'union':
                 continue
-            if '::<' in type_decl(t):
-                continue        # method paths with generic arguments are outside the model's domain (Syn.v: OutOfDomain); oracle only
+            if re.search(r'method = [\w:]*::<[^>"]*,', type_decl(t)):
+                continue        # `method = a::<0, _>`: commas inside generic arguments of a name-value expression are outside the model's domain (Syn.v: classify_angle); oracle only
             for op in meta['xops']:
                 if (tid, op) in real_res:
                     try:
